@@ -1,4 +1,4 @@
 (* Extraction of the stream-core model (shared by C01, C02, C06, C08, C09). *)
 From Coq Require Import ExtrOcamlBasic.
-From SV Require Import Lib.Bytes Lib.ExtractBase Model.Wire Model.Chan Model.Stream.
-Extraction "c01_model.ml" extract_anchor world0 step run proxy_pre_select next_channel.
+From SV Require Import Lib.Bytes Lib.ExtractBase Model.Wire Model.Chan Model.Stream Model.StreamQuiet.
+Extraction "c01_model.ml" extract_anchor world0 step run proxy_pre_select next_channel quiescentb quiescent_eagerb.
